@@ -405,6 +405,11 @@ impl FlatMaTree {
             return None;
         };
 
+        // Properties of previous channels need those channels, which the table decoder doesn't set up.
+        if decision_prop >= 16 {
+            return None;
+        }
+
         let mut state: Option<(Predictor, i32, u32)> = None;
         let mut cluster_table = Vec::with_capacity(indices.len());
         for &index in &**indices {
